@@ -1,1 +1,73 @@
-/-! Property theorems for C20 (see /verif/DESIGN.md). Only property theorems and non-vacuity examples live here. -/
+import Proofs.C20Show
+import Proofs.C20Quote
+import Proofs.C04Gen
+/-! Property theorems for C20 (see /verif/DESIGN.md). Only property theorems and non-vacuity examples live here.
+
+Expressions (token level; the language of C04's theorems without the blank concatenation operator): `showE` mirrors the `String()` methods of internal/ast/ast.go with
+`parenthesize`; `addShow e` is the tree the printed text denotes. String and regex literals (byte level): `quote` /
+`lexString`, `formatRegex` / `lexRegex` mirror `quoteString`, the lexer's `parseString`, `formatRegex`, `scanRegex`. -/
+namespace GoawkModel.C20
+open GoawkModel.C04
+
+/-- The printed form of an expression of the parser's range is accepted by the parser and parses to the same tree
+    apart from grouping nodes (`ParserRange` = `canon pc 1`, the trees `parseExpr` produces: C04 `parse_canonical`). -/
+theorem show_reparses (e : Expr) (pc : Bool) (rest : List Tok) (hr : canon pc 1 e = true) (hn : noConcat e = true)
+    (hf : Follow pc rest) :
+    ∃ e', parseExpr pc (showE e ++ rest) = .ok (e', rest) ∧ strip e' = strip e := by
+  refine ⟨addShow e, ?_, strip_addShow e⟩
+  rw [showE_eq_render e pc 1 hr]
+  exact parseExpr_canon pc (addShow e) rest (canon_addShow e hn pc 1 hr) (by unfold Follow at hf; omega)
+
+/-- Printing the re-parsed tree yields the same text again. -/
+theorem show_idempotent (e : Expr) (pc : Bool) (rest : List Tok) (hr : canon pc 1 e = true) (hn : noConcat e = true)
+    (hf : Follow pc rest) :
+    ∀ e' rest', parseExpr pc (showE e ++ rest) = .ok (e', rest') → showE e' = showE e := by
+  intro e' rest' h
+  have hs := showE_eq_render e pc 1 hr
+  rw [hs, parseExpr_canon pc (addShow e) rest (canon_addShow e hn pc 1 hr) (by unfold Follow at hf; omega)] at h
+  cases h
+  rw [showE_eq_render (addShow e) pc 1 (canon_addShow e hn pc 1 hr), addShow_idem e pc 1 hr]
+  exact hs.symm
+
+/-- The printed tokens are the tree's own tokens plus parentheses exactly where `parenthesize` puts them. -/
+theorem show_is_render (e : Expr) (pc : Bool) (hr : canon pc 1 e = true) : showE e = render (addShow e) :=
+  showE_eq_render e pc 1 hr
+
+/-- A printed string literal is read back by the lexer as the same bytes: for every byte string, every `IsPrint`
+    predicate on non-ASCII runes, every continuation of the source. -/
+theorem quote_roundtrip (printable : Nat → Bool) (s rest : Bytes) :
+    C20Quote.lexString ((C20Quote.quote printable s).tail ++ rest) = some (s, rest) :=
+  C20Quote.quote_roundtrip printable s rest
+
+/-- A printed regex literal is read back as the same regex, for every regex value the lexer can produce. -/
+theorem regex_roundtrip (r rest : Bytes) (h : C20Quote.RegexOk r) :
+    C20Quote.lexRegex ((C20Quote.formatRegex r).tail ++ rest) = some (r, rest) :=
+  C20Quote.regex_roundtrip r rest h
+
+/-- `RegexOk` is exactly the range of the lexer's regex reader (so `regex_roundtrip` covers every parsed program). -/
+theorem regex_range (r : Bytes) : C20Quote.RegexOk r ↔ ∃ src rest, C20Quote.lexRegex src = some (r, rest) :=
+  C20Quote.regexOk_iff_lexable r
+
+/-- Regenerated tie: ast.go's prec constants, every `precedence()` method, `parenthesize`'s test and `IsLValue` are the
+    ones the printer model `goPrec` / `parenT` is written from. -/
+theorem gen_matches :
+    Generated.C04Levels.precConsts.length = 17 ∧
+    Generated.C04Levels.precedenceOf.all (fun (t, c) => match sampleOf t with | some e => goPrec e == precIdx c | none => precIdx c == 15 || t == "NamedFieldExpr") = true ∧
+    (Generated.C04Levels.precedenceOf.map (·.1)).length = 17 ∧
+    Generated.C04Levels.binaryPrecedence.all (fun (ts, c) => ts.all fun t => (bopOfName t).map bopPrec == some (precIdx c)) = true ∧
+    (Generated.C04Levels.binaryPrecedence.map (·.1)).flatten.length = 17 ∧
+    Generated.C04Levels.incrPrecedence.map precIdx = [goPrec (.incr true false .none), goPrec (.incr false false .none)] ∧
+    Generated.C04Levels.parenthesizeTest = "e.precedence() < other.precedence()" ∧
+    Generated.C04Levels.lvalueTypes = ["VarExpr", "IndexExpr", "FieldExpr"] :=
+  gen_matches_prec
+
+/-! ### non-vacuity -/
+
+/-- `2 ^ - x0` is in the parser's range and prints as `2 ^ ( - x0 )`; `- - x0`, `(1 + 2) * 3` with its written parentheses -/
+example : canon false 1 (.binary .pow (.num 2) (.unary .neg (.var 0))) = true ∧ noConcat (.binary .pow (.num 2) (.unary .neg (.var 0))) = true := by decide
+example : showE (.binary .pow (.num 2) (.unary .neg (.var 0))) = [.num 2, .pow, .lparen, .sub, .name 0, .rparen] := by decide
+example : canon true 1 (.binary .mul (.group (.binary .add (.num 1) (.num 2))) (.num 3)) = true := by decide
+example : Follow true [.cmp .gt, .str 1] := rfl
+example : C20Quote.RegexOk [0x61, 0x2f, 0x62] := by decide
+
+end GoawkModel.C20
